@@ -28,6 +28,8 @@ pub trait Ops {
     fn bound(&self) -> Value;
     /// native decode under quotas: outcome class, reported cost, peak allocation
     fn decode_with(&self, bytes: &[u8], d: Option<usize>, s: Option<usize>) -> Value;
+    /// the type exported through a TypeContainer (named definitions + the type expression)
+    fn export(&self) -> (candid::types::TypeEnv, candid::types::Type);
 }
 pub struct E<T>(pub PhantomData<T>);
 impl<T: Corp> Ops for E<T> {
@@ -60,6 +62,7 @@ impl<T: Corp> Ops for E<T> {
         match guard(|| Encode!(&v)) { Ok(Ok(b)) => Ok((v.absv(), b)), Ok(Err(e)) => Err(e.to_string()), Err(s) => Err(format!("panic {s}")) }
     }
     fn bound(&self) -> Value { T::bound() }
+    fn export(&self) -> (candid::types::TypeEnv, candid::types::Type) { let mut tc = candid::types::internal::TypeContainer::new(); let t = tc.add::<T>(); (tc.env, t) }
     fn decode_with(&self, bytes: &[u8], d: Option<usize>, s: Option<usize>) -> Value {
         let mut c = candid::de::DecoderConfig::new();
         if let Some(d) = d { c.set_decoding_quota(d); }
@@ -245,6 +248,28 @@ fn up_case(idx: usize, ps: &[Pair], g: &mut StdRng) -> Value {
            "env": nodes, "tf": tf, "tt": tt, "v": v, "sub": sub, "blob": bytesj(&bytes), "blob_hex": bytes.iter().map(|b| format!("{b:02x}")).collect::<String>(), "native": native, "untyped": untyped})
 }
 
+/// C12: a type environment exported from Rust types, printed as .did and re-checked
+fn export_case(idx: usize, reg: &[Box<dyn Ops>], g: &mut StdRng) -> Value {
+    use candid::types::{Function, TypeInner};
+    let n = g.gen_range(1..4);
+    let mut env = candid::types::TypeEnv::new();
+    let mut ms = vec![];
+    for i in 0..n {
+        let e = &reg[g.gen_range(0..reg.len())];
+        let r = guard(|| e.export());
+        let (en, t) = match r { Ok(x) => x, Err(s) => return json!({"idx": idx, "kind": "pp", "origin": "export", "src": e.name(), "g": {"nodes": {}, "defs": {}, "actor": "none", "init": []}, "prints": [{"which": "types", "same": 1, "text": "", "re": {"panic": s}}]}) };
+        for (k, v) in en.0.iter() { env.0.insert(k.clone(), v.clone()); }
+        ms.push((format!("m{i}"), TypeInner::Func(Function { modes: vec![], args: vec![t.clone()], rets: vec![t] }).into()));
+    }
+    let actor: candid::types::Type = TypeInner::Service(ms).into();
+    let src0 = match guard(|| candid::pretty::candid::compile(&env, &Some(actor.clone()))) { Ok(s) => s, Err(s) => return json!({"idx": idx, "kind": "pp", "origin": "export", "src": "", "g": {"nodes": {}, "defs": {}, "actor": "none", "init": []}, "prints": [{"which": "types", "same": 1, "text": "", "re": {"panic": s}}]}) };
+    let c0 = crate::prog::Checked { env, actor: Some(actor), prog: "".parse().unwrap(), src: String::new() };
+    let g0 = crate::prog::graph(&c0, "s");
+    let again = guard(|| candid::pretty::candid::compile(&c0.env, &c0.actor)).unwrap_or_default();
+    let re = match crate::prog::check_src(&src0) { Ok(Ok(c2)) => json!({"ok": crate::prog::graph(&c2, "r")}), Ok(Err(e)) => json!({"err": e.chars().take(200).collect::<String>()}), Err(s) => json!({"panic": s}) };
+    json!({"idx": idx, "kind": "pp", "origin": "export", "src": src0.chars().take(1500).collect::<String>(), "g": g0, "prints": [{"which": "types", "same": (again == src0) as u8, "text": src0.chars().take(1500).collect::<String>(), "re": re}]})
+}
+
 pub fn run(o: &Opts) {
     let reg = registry();
     let ps = pairs();
@@ -255,7 +280,7 @@ pub fn run(o: &Opts) {
     if mode == "list" { for e in &reg { println!("{}", e.name()); } return; }
     if mode == "hist" { return crate::memo::run(o); }
     for idx in 0..o.n {
-        let v = match mode { "rt" => rt_case(idx, &reg, &mut g), "dec" => dec_case(idx, &reg, &mut gg), "up" => up_case(idx, &ps, &mut g), _ => enc_case(idx, &reg, &mut g) };
+        let v = match mode { "rt" => rt_case(idx, &reg, &mut g), "dec" => dec_case(idx, &reg, &mut gg), "up" => up_case(idx, &ps, &mut g), "export" => export_case(idx, &reg, &mut g), _ => enc_case(idx, &reg, &mut g) };
         if idx >= o.start { out.emit(&v); }
     }
 }
